@@ -641,3 +641,43 @@ func VerifC11CloseTwice(withCall int) {
 	verifAssert(verifGoroutines() == 0, "no-goroutine-left-after-close")
 	verifReach("end")
 }
+
+// VerifC11Logged: a client created with the logging options (dropped packets are logged)
+// receives a datagram that belongs to no pending call at a symbolic instant, then makes a call that
+// meets silence: the call ends on schedule, a second stray datagram changes nothing, Close returns
+// and leaves no goroutine.
+func VerifC11Logged(tries int) {
+	k := &verifCall{conn: newVerifConn(), ctxAt: -1, closeAt: -1}
+	k.T = int64(verifU32("T"))
+	verifAssume(k.T >= 1)
+	c, err := NewWithConn(k.conn, verifHW, WithTimeout(time.Duration(k.T)), WithRetry(tries), WithLogDroppedPackets())
+	verifAssert(err == nil, "client-created")
+	k.c = c
+	k.req = verifRequest()
+	k.dest = verifDest()
+	w := k.T
+	for i := 0; i < tries; i++ {
+		k.budget += w
+		w += w
+	}
+	stray := &dhcpv6.Message{MessageType: dhcpv6.MessageTypeReply, TransactionID: dhcpv6.TransactionID{9, 9, 9}}
+	at1, at2 := int64(verifU64("stray1.at")), int64(verifU64("stray2.at"))
+	verifAssume(at1 >= 0 && at1 <= 1<<36)
+	verifAssume(at2 > at1 && at2 <= 1<<36)
+	k.conn.deliver(at1, stray.ToBytes())
+	k.conn.deliver(at2, stray.ToBytes())
+	k.start = verifNow()
+	k.resp, k.err = c.SendAndRead(newVerifCtx(), k.dest, k.req, IsMessageType(dhcpv6.MessageTypeAdvertise))
+	k.end = verifNow()
+	verifAssert(k.resp == nil && k.err == ErrNoResponse, "no-response-error")
+	verifAssert(k.end-k.start == k.budget, "returns-within-T-times-2^tries-1")
+	// let the second stray arrive (if it has not yet), then close
+	done := make(chan struct{})
+	verifAt(1<<36+1, func() { close(done) })
+	<-done
+	cerr := c.Close()
+	verifAssert(cerr == nil, "close-returns")
+	verifSettle()
+	verifAssert(verifGoroutines() == 0, "no-goroutine-left-after-close")
+	verifReach("end")
+}
